@@ -1,5 +1,7 @@
 import CuqiVerif.Model.Proto
 import CuqiVerif.Model.C07
+import CuqiVerif.Model.C07_psf
+import CuqiVerif.Model.C07_obj
 open CuqiVerif CuqiVerif.Proto CuqiVerif.C07
 
 /-!
@@ -11,6 +13,15 @@ Line protocol of the C07 model (R = Rat).
   deconv1 <BC> <n> <P>              -> the matrix `Deconvolution1D` stores | `err`
   deconv2 <BC> <n> <P (s×s)>        -> `fwd=<mat> adj=<mat>` (parameter level) | `err`
   abel  <n> <endpoint>              -> squares of the entries of the Abel matrix
+
+  psf1  <name> <size> <param|none> <g|->            -> `err` | `nan` | PSF vector  (`_GaussPSF_1D` … ; `g` = Gauss profile values g(0),g(1),…)
+  psf2  <name> <size> <param|none> <g|->            -> `err` | `nan` | PSF matrix  (`_GaussPSF` …)
+  deconv1n <BC> <n> <name> <size|none> <param|none> <g|->        -> `err` | `nan` | `psf=<vec> mat=<mat>`
+  deconv2n <BC> <n> <name> <size|dflt> <param|none|dflt> <g|->   -> `err` | `nan` | `psf=<mat> fwd=<mat> adj=<mat>`
+
+  hist  <mb|fn> <A> <B|-> <gd> <gr> <ops>           -> the `lin` observation of the object after the history `ops`
+        (`_` or `|`-separated `gm`, `sd=<g>`, `sr=<g>`): fwd/adj/tfwd/tadj on the current geometries, `tgm` of a `T`
+        taken now, then `gm` (the stored matrix if one was cached)
 
   geometry tokens: `id:n` `imgC:r:c` `imgF:r:c` `step:n:s` `imgCs:r:c` (Continuous2D) `leaf:<sq|nsq>:pd:fd:<E>:<F>`
 -/
@@ -59,6 +70,98 @@ def matFn (m : List (List Rat)) : Nat → Nat → Q := let a := toArr m; fun i j
 /-- forced products (same entries as `fwdMat`/`adjMat`/`tFwdMat`/`tAdjMat`, see `Props/C07.force_e`, `mul3Forced_e`) -/
 def prod3 (X Y Z : LMat Q) : LMat Q := LMat.mul3Forced X Y Z
 
+/-- the observation of a `LinearModel` object: forward / adjoint / get_matrix / T.forward / T.adjoint / T.get_matrix -/
+def obsLine (o : Obj Q) : String :=
+  let M := o.M
+  if !M.shapesOk then "err" else
+  let fwd := prod3 M.rng.F M.A M.dom.E
+  let adj := prod3 M.dom.F M.B M.rng.E
+  let gm := if !o.getMatrixOk || (o.cache.isNone && !M.getMatrixOk) then "err" else
+    fmtL (match o.cache with
+          | some C => if M.matrixBacked then M.getMatrix else C
+          | none => if M.matrixBacked then M.getMatrix else fwd)
+  let t :=
+    if M.tOk then
+      let tf := (M.dom.reFMat.mul (prod3 M.dom.F M.B (M.rng.reEMat.mul M.rng.E).force)).force
+      let ta := (M.rng.reFMat.mul (prod3 M.rng.F M.A (M.dom.reEMat.mul M.dom.E).force)).force
+      let tg := match o.cache, M.matrixBacked with
+        | some C, false => fmtL C.transpose
+        | _, _ => if !M.tGetMatrixOk then "err" else fmtL (if M.matrixBacked then M.tGetMatrix else tf)
+      s!"tfwd={fmtL tf} tadj={fmtL ta} tgm={tg}"
+    else "tfwd=err tadj=err tgm=" ++ (match o.cache, M.matrixBacked with
+        | some C, false => fmtL C.transpose
+        | _, _ => if M.matrixBacked then fmtL M.tGetMatrix else "err")
+  s!"fwd={fmtL fwd} adj={fmtL adj} gm={gm} {t}"
+
+def parseOp (s : String) : Option (Op Q) :=
+  if s = "gm" then some .getMatrix
+  else if s.startsWith "sd=" then (parseGeom (s.drop 3).toString).map .setDom
+  else if s.startsWith "sr=" then (parseGeom (s.drop 3).toString).map .setRng
+  else none
+
+def parseOps (s : String) : Option (List (Op Q)) :=
+  if s = "_" then some [] else (s.splitOn "|").mapM parseOp
+
+/-- tabulate the cached matrix (same entries: `force_e`) -/
+def forcedObj (o : Obj Q) : Obj Q := { o with cache := o.cache.map LMat.force }
+
+def stepHist : List String → Option String
+  | ["hist", kind, a, b, gd, gr, ops] => do
+    let A ← parseLMat a; let D ← parseGeom gd; let Rg ← parseGeom gr; let ops ← parseOps ops
+    let M ← (match kind, b with
+      | "mb", "-" => some (LinModel.ofMatrix A D Rg)
+      | "fn", b => (parseLMat b).map (fun B => ({ A := A, B := B, dom := D, rng := Rg, matrixBacked := false } : LinModel Q))
+      | _, _ => none)
+    -- the history is run by the model's `Obj.run`; every cached matrix is tabulated when it is stored
+    let fin := ops.foldl (fun o op => forcedObj (o.step op)) (Obj.fresh M)
+    some (obsLine fin)
+  | _ => none
+
+def parseOptRat (s : String) : Option (Option Rat) :=
+  if s = "none" then some none else (parseRat s).map some
+
+def parseOptNat (s : String) : Option (Option Nat) :=
+  if s = "none" then some none else s.toNat?.map some
+
+def parseG (s : String) : Option (Nat → Q) :=
+  if s = "-" then some (fun _ => 0) else (parseVec s).map vecFn
+
+def fmtV (n : Nat) (P : Nat → Q) : String := fmtVec ((List.range n).map P)
+def fmtM2 (n : Nat) (P : Nat → Nat → Q) : String :=
+  if n = 0 then "_0x0" else fmtMat ((List.range n).map fun a => (List.range n).map fun b => P a b)
+
+def stepPsf : List String → Option String
+  | ["psf1", name, size, param, g] => do
+    let s ← size.toNat?; let p ← parseOptRat param; let g ← parseG g
+    match psfKind name.toLower with
+    | none => some "err"
+    | some k => match namedPSF1 k s p g with
+      | .raises => some "err" | .nan => some "nan" | .ok P => some (fmtV s P)
+  | ["psf2", name, size, param, g] => do
+    let s ← size.toNat?; let p ← parseOptRat param; let g ← parseG g
+    match psfKind name.toLower with
+    | none => some "err"
+    | some k => match namedPSF2 k s p g with
+      | .raises => some "err" | .nan => some "nan" | .ok P => some (fmtM2 s P)
+  | ["deconv1n", bc, n, name, size, param, g] => do
+    let n ← n.toNat?; let sz ← parseOptNat size; let p ← parseOptRat param; let g ← parseG g
+    match deconv1dNamed bc name n sz p g with
+    | .raises => some "err" | .nan => some "nan"
+    | .ok (s, P, A) => some s!"psf={fmtV s P} mat={fmtL A}"
+  | ["deconv2n", bc, n, name, size, param, g] => do
+    let n ← n.toNat?; let g ← parseG g
+    let s ← (if size = "dflt" then some deconv2dDefaultSize else size.toNat?)
+    let p ← (if param = "dflt" then some (some deconv2dDefaultParam) else parseOptRat param)
+    match deconv2dNamed bc name n s p g with
+    | .raises => some "err" | .nan => some "nan"
+    | .ok (P, M) =>
+      -- tabulate the PSF once (the entry function divides by the normalising sum)
+      let Pt := (LMat.mk s s P).force
+      let M := { M with A := (conv2 (match bc2d bc.toLower with | some m => m | none => .wrap) s Pt.e n).force,
+                        B := (conv2 (match bc2d bc.toLower with | some m => m | none => .wrap) s (flip2 s Pt.e) n).force }
+      some s!"psf={fmtM2 s Pt.e} fwd={fmtL (prod3 M.rng.F M.A M.dom.E)} adj={fmtL (prod3 M.dom.F M.B M.rng.E)}"
+  | _ => none
+
 def step : List String → String
   | ["geom", g] =>
     match parseGeom g with
@@ -74,19 +177,7 @@ def step : List String → String
         | _, _ => none
       match M? with
       | none => "bad-op"
-      | some M =>
-        if !M.shapesOk then "err" else
-        let fwd := prod3 M.rng.F M.A M.dom.E
-        let adj := prod3 M.dom.F M.B M.rng.E
-        let gm := if !M.getMatrixOk then "err" else fmtL (if M.matrixBacked then M.getMatrix else fwd)
-        let t :=
-          if M.tOk then
-            let tf := (M.dom.reFMat.mul (prod3 M.dom.F M.B (M.rng.reEMat.mul M.rng.E).force)).force
-            let ta := (M.rng.reFMat.mul (prod3 M.rng.F M.A (M.dom.reEMat.mul M.dom.E).force)).force
-            let tg := if !M.tGetMatrixOk then "err" else fmtL (if M.matrixBacked then M.tGetMatrix else tf)
-            s!"tfwd={fmtL tf} tadj={fmtL ta} tgm={tg}"
-          else "tfwd=err tadj=err tgm=" ++ (if M.matrixBacked then fmtL M.tGetMatrix else "err")
-        s!"fwd={fmtL fwd} adj={fmtL adj} gm={gm} {t}"
+      | some M => obsLine (Obj.fresh M)
     | _, _, _ => "bad-op"
   | ["conv1", mode, n, p] =>
     match parseExt mode, n.toNat?, parseVec p with
@@ -115,6 +206,8 @@ def step : List String → String
     match n.toNat?, parseRat ep with
     | some n, some ep => if n = 0 ∨ ep = 0 then "err" else fmtL (abelSq n ep)
     | _, _ => "bad-op"
-  | _ => "bad-op"
+  | l => match stepPsf l with
+    | some o => o
+    | none => match stepHist l with | some o => o | none => "bad-op"
 
 def main : IO Unit := runDriver step
